@@ -253,6 +253,10 @@ Definition f32_at (a : list N) (idx : Z) : value :=
 Fixpoint zrange (start : Z) (n : nat) : list Z := match n with O => [] | S k => start :: zrange (start + 1) k end.
 Fixpoint enumerate {A} (i : Z) (l : list A) : list (A * Z) :=
   match l with [] => [] | x :: r => (x, i) :: enumerate (i + 1) r end.
+(* frameRepresentation's coordinate counter (parser.ts, after fix F5): `let dimIndex = 0` before the loop over the format
+   letters, `dimIndex++` inside the `dim !== "C"` branch only - the k-th coordinate letter reads the k-th coordinate *)
+Fixpoint enum_coords (i : Z) (l : list N) : list (N * Z) :=
+  match l with [] => [] | x :: r => (x, i) :: enum_coords (if (x =? 67)%N then i else (i + 1)%Z) r end.
 
 Record jbody := { jb_info : obj; jb_frames : Z; jb_people : Z; jb_points : Z; jb_dims : Z;
                   jb_data : list N; jb_conf : list N }.
@@ -264,7 +268,7 @@ Definition js_point (b : jbody) (format : list N) (i j k l : Z) : value :=
                      let '(dim, dim_index) := dd in
                      if dim =? 67 then pt                                   (* dim !== "C" *)
                      else obj_set pt [dim] (f32_at (jb_data b) (js_data_index place (jb_dims b) dim_index)))
-                  (enumerate 0 format)
+                  (enum_coords 0 format)
                   [(k_C, f32_at (jb_conf b) place)]).
 Definition js_person (comps : list jcomp) (b : jbody) (i j : Z) : value :=
   VObj (fst (fold_left (fun (acc : obj * Z) c =>
